@@ -45,9 +45,9 @@ Print Assumptions run_same_every_time.
    configuration src extends src's chain by exactly that step. *)
 Theorem chain_is_own_derivation : forall w src m a c ch,
   nth_error (w_env w) src = Some c -> nth_error (w_chain w) src = Some ch ->
-  length (w_chain w) = length (w_env w) ->
+  List.length (w_chain w) = List.length (w_env w) ->
   (meth_uses_ref m = true -> resolve_arg w a <> None) ->
-  exists ao, nth_error (w_chain (exec_op w (ODerive src m a))) (length (w_env w)) = Some (ch ++ [VStep m ao]).
+  exists ao, nth_error (w_chain (exec_op w (ODerive src m a))) (List.length (w_env w)) = Some (ch ++ [VStep m ao]).
 Proof. exact chain_of_derived. Qed.
 Print Assumptions chain_is_own_derivation.
 
@@ -82,4 +82,25 @@ Definition h_shared : list op :=
 Example witness_shared :
   map (fun i => sim_seed (observe (exec h_shared w0) i)) [0; 1; 2; 3]%nat
   = [Some None; Some (Some 5); Some (Some 5); Some (Some 9)].
+Proof. vm_compute. reflexivity. Qed.
+
+(** EmulatorBuilder (builder.py): the same two statements for builder configurations;
+    [bobserve w i p] = what selene_sim.build receives from builders[i].build(p, _). *)
+From V.C28 Require Import GenBuilder ModelBuilder ProofsBuilder.
+Theorem builder_derive_pure : forall (before after : list bop) (i : nat) (p : Z) (o : obs),
+  bobserve (bexec before bw0) i p = Some o -> bobserve (bexec after (bexec before bw0)) i p = Some o.
+Proof. exact builder_pure_lem. Qed.
+Print Assumptions builder_derive_pure.
+
+Theorem builder_reproducible : forall (ops : list bop) (i : nat) (ch : list bmeth) (p : Z),
+  nth_error (bw_chain (bexec ops bw0)) i = Some ch ->
+  forall more, bobserve (bexec more (bexec ops bw0)) i p = Some (bchain_obs ch p).
+Proof. exact builder_reproducible_lem. Qed.
+Print Assumptions builder_reproducible.
+
+Example builder_witness :
+  let w := bexec [BNew; BDerive 0 (B_with_build_arg 1 10); BDerive 1 (B_with_build_arg 2 20);
+                  BDerive 1 (B_with_build_arg 1 11); BBuild 1 5] bw0 in
+  map (fun i => option_map (fun o => nth 10 o (""%string, VZ 0)) (bobserve w i 5)) [1; 2; 3]%nat
+  = [Some ("**"%string, VDict [(1, 10)]); Some ("**"%string, VDict [(1, 10); (2, 20)]); Some ("**"%string, VDict [(1, 11)])].
 Proof. vm_compute. reflexivity. Qed.
